@@ -23,6 +23,9 @@ func NewCache() Cache {
 }
 
 func (c Cache) Get(fn string, args []object.Object) (object.Object, []byte, bool) {
+	if VerifCacheOff {
+		return nil, nil, false
+	}
 	if len(args) > MaxArgs {
 		return nil, nil, false
 	}
@@ -39,6 +42,9 @@ func (c Cache) Get(fn string, args []object.Object) (object.Object, []byte, bool
 }
 
 func (c Cache) Set(fn string, args []object.Object, result object.Object, output []byte) {
+	if VerifCacheOff {
+		return
+	}
 	if len(args) > MaxArgs {
 		return
 	}
